@@ -11,6 +11,8 @@
 from .facts import kids, strip, walk, is_call, render, local_inits, AnalysisBroken
 from . import e1
 
+NEEDS_VT = True
+
 EXPLANATION = ("Static analysis of structural clauses of C12 on AbstractNumericalDerivative and the two-, three- and five-point schemes: D1 all six update entry points forward and then "
                "call updateDerivatives with what was set; D2 every variable-name local whose parameter is shifted for a probe flows into a restore from the unmodified argument (or the whole "
                "argument is restored) on every path to the normal exit; D3 each enable...(false) on the wrapped function is paired with enable...(flag) on every normal exit (a pointer that is "
@@ -525,6 +527,11 @@ def run(chk, fb, tier):
     _d3(chk, fb)
     _d4(chk, fb)
     _d5_d6(chk, fb)
+    from . import fdiff
+    chk.rule("D7", "E7: every difference formula stored into der1_/der2_/crossDer2_, read with the points at which its values were taken (reaching definitions of "
+                   "p[k].setValue / function_->setParameters / fK_ = function_->getValue()), differentiates exactly every polynomial of degree <= max(order, points-1) "
+                   "(mixed derivative: total degree 2), identically in the step symbols")
+    fdiff.check(chk, fb, "D7", [s + "::updateDerivatives" for s in SCHEMES], 8)
     from . import copyrule
     chk.rule("DC", "copy constructor and copy assignment copy the same members; operator= empties a member container before re-populating it; copy functions never assign through a stored shared pointer")
     copyrule.check(chk, fb, "DC", lambda c: c["file"].endswith(("Bpp/Numeric/Function/NumericalDerivative.h",)), floor=1)
